@@ -1,3 +1,4 @@
+import RossModel.Lemmas.SerialEnd
 import RossModel.Lemmas.Resync
 import RossModel.Lemmas.Run
 /-!
